@@ -131,11 +131,13 @@ func (d *driver) checkBuild(what string, rev int, pkgs []string, cache string, r
 		return
 	}
 	if r.Res.Digest != want {
-		tag, bad := d.triage(cache, "digest-differs-with-cache")
-		if tag == "digest-differs-with-cache" {
-			if sl := d.onlySizeLinesDiffer(rev, pkgs, r.Res); sl != nil {
-				tag, bad = "hit-without-signature-section", sl
-			}
+		// the exact layer comparison first (rebuild hook hits are normal since fix 90139a3)
+		var tag string
+		var bad []string
+		if sl := d.onlySizeLinesDiffer(rev, pkgs, r.Res); sl != nil {
+			tag, bad = "hit-without-signature-section", sl
+		} else {
+			tag, bad = d.triage(cache, "digest-differs-with-cache")
 		}
 		desc["what"], desc["want"], desc["bad"] = what, want, bad
 		r.Res.InstalledDB = ""
